@@ -357,8 +357,17 @@ func quiesce() ([]ginfo, error) {
 			os.WriteFile("/tmp/c07_sched_hang.txt", []byte(dump), 0o644)
 			return gs, errNotQuiescent
 		}
-		if spin > 20 {
-			time.Sleep(20 * time.Microsecond)
+		// Every snapshot stops the world. A goroutine that is runnable needs a thread to be woken for it after the
+		// world restarts; when the next snapshot follows too quickly the thread finds the world stopping again and
+		// the goroutine never runs (seen as 30 s of "runnable" with 1 MiB frames). So the pause between snapshots
+		// grows while the program is not quiescent (20 us ... 2 ms); pauses do not decide anything, they only
+		// leave the processor to the program.
+		if spin > 8 {
+			d := 20 * time.Microsecond << uint((spin-8)/8)
+			if d > 2*time.Millisecond || d <= 0 {
+				d = 2 * time.Millisecond
+			}
+			time.Sleep(d)
 		}
 	}
 }
